@@ -7,8 +7,6 @@
 //!     Oracle: the same program alone through the library pipeline on fresh, separate arenas.
 //! (b) CLI differential: the real un-hooked `naija` binary via file, --eval and `-` (stdin in
 //!     seeded chunks); stdout bytes and exit status against the library's prediction.
-use std::io::Write;
-use std::process::{Command, Stdio};
 
 use naijascript::arena::{self, Arena, scratch_arena};
 use naijascript::resolver::Resolver;
@@ -20,6 +18,7 @@ use serde_json::{Value, json};
 
 use crate::common::*;
 use crate::prog::{self, St};
+use crate::realos;
 use crate::rng::{Rng, fnv};
 
 pub struct C14;
@@ -172,7 +171,32 @@ fn planted(r: &mut Rng) -> (String, &'static str) {
     }
 }
 
+/// Sources that are nothing but an oddity: empty, blank, comment only, or a lone bad line.
+fn degenerate(r: &mut Rng) -> (String, &'static str) {
+    match r.below(12) {
+        0 => (String::new(), "empty"),
+        1 => ("   \n\t\n".into(), "blank"),
+        2 => ("# only a comment\n# another".into(), "comment-only"),
+        3 => ("@".into(), "lexical-only"),
+        4 => ("\"hello\".to_uppercase()\nshout(\"never\")".into(), "syntax-only"),
+        5 => ("5 add 5".into(), "syntax-only"),
+        6 => ("end\nshout(\"x\")".into(), "syntax-only"),
+        7 => ("shout(".into(), "syntax-only"),
+        8 => ("shout(nope)".into(), "static-only"),
+        9 => ("make x get 1".into(), "warning-only"),
+        10 => ("shout(1 divide 0)".into(), "runtime-only"),
+        _ => {
+            let (t, _) = planted(r);
+            (t, "planted-only")
+        }
+    }
+}
+
 fn gen_program(r: &mut Rng) -> Value {
+    if r.chance(8) {
+        let (text, what) = degenerate(r);
+        return json!({"prog": prog::block_to_json(&[St::Raw(text)]), "plant": what});
+    }
     let mut g = prog::Gen::new(r.fork());
     let mut p = g.program();
     let mut what = "plain";
@@ -299,42 +323,46 @@ impl C14 {
         res.count(&format!("cli_{route}"), 1);
         res.count(&format!("cli_{bin_kind}_binary"), 1);
         res.count(&format!("cli_ending_{ending}"), 1);
-        let mut cmd = Command::new(&bin);
-        cmd.stdout(Stdio::piped()).stderr(Stdio::piped());
-        match route {
-            "eval" => {
-                cmd.arg("--eval").arg(&src).stdin(Stdio::null());
-            }
-            "stdin" => {
-                cmd.arg("-").stdin(Stdio::piped());
-            }
-            _ => {
-                std::fs::write(&path, &src).map_err(|e| ("harness".to_string(), format!("write {path}: {e}")))?;
-                cmd.arg(&path).stdin(Stdio::null());
-            }
-        }
-        let mut child = cmd.spawn().map_err(|e| ("harness".to_string(), format!("spawn {bin}: {e}")))?;
-        if route == "stdin" {
-            let mut stdin = child.stdin.take().unwrap();
-            let chunks: Vec<usize> = case["chunks"].as_array().map(|a| a.iter().map(|x| x.as_u64().unwrap() as usize).collect()).unwrap_or_default();
+        // stdin pieces: through a pipe (the kernel may coalesce them) or as SOCK_SEQPACKET packets
+        // (every read(2) of the binary returns exactly one piece, so the chunking is deterministic)
+        let chunks: Vec<usize> = case["chunks"].as_array().map(|a| a.iter().map(|x| x.as_u64().unwrap() as usize).collect()).unwrap_or_default();
+        let mut pieces: Vec<Vec<u8>> = vec![];
+        {
             let bytes = src.as_bytes();
-            let mut pos = 0;
-            let mut k = 0;
+            let (mut pos, mut k) = (0, 0);
             while pos < bytes.len() {
-                let n = chunks.get(k.min(chunks.len().saturating_sub(1))).copied().unwrap_or(usize::MAX).max(1).min(bytes.len() - pos);
-                if stdin.write_all(&bytes[pos..pos + n]).is_err() {
-                    break;
-                }
-                let _ = stdin.flush();
+                // the binary reads with an 8 KiB buffer: a larger packet would be cut by the socket layer
+                let n = chunks.get(k.min(chunks.len().saturating_sub(1))).copied().unwrap_or(usize::MAX).clamp(1, 8192).min(bytes.len() - pos);
+                pieces.push(bytes[pos..pos + n].to_vec());
                 pos += n;
                 k += 1;
             }
-            res.count("cli_stdin_writes", k as u64);
-            drop(stdin);
         }
-        let out = child.wait_with_output().map_err(|e| ("harness".to_string(), format!("wait: {e}")))?;
+        let piped: Vec<(Vec<u8>, u64)> = pieces.iter().map(|p| (p.clone(), 0)).collect();
+        let run = match route {
+            "eval" => realos::run_naija_args(&bin, &["--eval", &src], realos::Feed::Null),
+            "stdin" => {
+                res.count("cli_stdin_writes", pieces.len() as u64);
+                if case["packets"].as_bool().unwrap_or(false) {
+                    res.count("cli_stdin_as_packets", 1);
+                    realos::run_naija_args(&bin, &["-"], realos::Feed::Packets(&pieces))
+                } else {
+                    realos::run_naija_args(&bin, &["-"], realos::Feed::Pipe(&piped))
+                }
+            }
+            _ => {
+                std::fs::write(&path, &src).map_err(|e| ("harness".to_string(), format!("write {path}: {e}")))?;
+                realos::run_naija_args(&bin, &[&path], realos::Feed::Null)
+            }
+        };
         let _ = std::fs::remove_file(&path);
-        let code = out.status.code().unwrap_or(-1);
+        let run = run.map_err(|m| ("harness".to_string(), m))?;
+        struct Out {
+            stdout: Vec<u8>,
+            stderr: Vec<u8>,
+        }
+        let out = Out { stdout: run.stdout, stderr: run.stderr };
+        let code = run.code;
         if out.stdout != want_out {
             let (g, w) = (String::from_utf8_lossy(&out.stdout).into_owned(), String::from_utf8_lossy(&want_out).into_owned());
             return Err((
@@ -380,7 +408,7 @@ impl Engine for C14 {
             let nchunks = r.usize(1, 6);
             let chunks: Vec<u64> = (0..nchunks).map(|_| r.pick(&[1u64, 7, 100, 4096, 8191, 8192, 8193, 65_536])).collect();
             let bin = if tier == Tier::Thorough && r.chance(50) { "release" } else { "dev" };
-            return json!({"kind": "cli", "program": program, "route": route, "chunks": chunks, "bin": bin});
+            return json!({"kind": "cli", "program": program, "route": route, "chunks": chunks, "bin": bin, "packets": r.chance(70)});
         }
         // (a) session
         let nprogs = r.usize(1, 6);
